@@ -132,6 +132,28 @@ def script_from_model(hist: list[dict], idx: int) -> list[dict]:
     return out
 
 
+def shape_of(h: dict) -> tuple:
+    return (h["verdict"],) + tuple(e["kind"] if e["op"] == "mutate" else e["mode"] for e in h["hist"])
+
+
+def select_histories(hists: list[dict], budget: int) -> list[dict]:
+    """Deterministic selection of at most `budget` exported histories: round-robin over the groups
+    (model verdict, sequence of event kinds), each group in digest order, so that every kind of history the model
+    produced (every stale-value family, every mutation kind in every position) is replayed."""
+    groups: dict[tuple, list[dict]] = {}
+    for h in sorted(hists, key=digest):
+        groups.setdefault(shape_of(h), []).append(h)
+    order = sorted(groups)
+    chosen: list[dict] = []
+    k = 0
+    while len(chosen) < budget and any(len(groups[g]) > k for g in order):
+        for g in order:
+            if len(groups[g]) > k and len(chosen) < budget:
+                chosen.append(groups[g][k])
+        k += 1
+    return chosen
+
+
 def model_runs(ctx: Ctx, specs: list[dict], timeout: float = 3000) -> dict[str, list[dict]]:
     """Run MC_PipelineCache for every spec {name, n, fam, maxlen, maxmut, scheme, export, nshards, invs}; all shards of
     all specs share one pool of TLC processes (one worker each: with a VIEW the witness history kept per state depends
@@ -232,6 +254,8 @@ def random_history(rng: random.Random, idx: int, disk_root: Path, length: int) -
                 extra = [x for x in outs + roots if x not in c and x != o]
                 if extra:
                     c.append(rng.choice(extra))                         # possibly surplus
+            dflt = set(pu.defaults)
+            c = [x for x in c if not (x in dflt and rng.random() < 0.5)]     # let a default apply
             kw = [[x, k_value(x, 1 if rng.random() < 0.7 else 2)] for x in c]
             op = {"op": "call", "out": o, "kw": kw, "mode": rng.choice(["call", "run", "func", "full"])}
             prev_call = op
@@ -240,6 +264,11 @@ def random_history(rng: random.Random, idx: int, disk_root: Path, length: int) -
         trace["ev"] += part["ev"]
         trace["outcomes"] += part["outcomes"]
     return trace
+
+
+def same_call(a: dict | None, b: dict | None) -> bool:
+    return bool(a and b and a["op"] == "call" == b["op"] and (a["out"], a["mode"]) == (b["out"], b["mode"])
+                and sorted(map(json.dumps, a["kw"])) == sorted(map(json.dumps, b["kw"])))
 
 
 def map_histories(ctx: Ctx, rng: random.Random) -> list[dict]:
@@ -355,8 +384,7 @@ def selftests(ctx: Ctx) -> None:
     evs = bad2["ev"]
     first_c = next(e for e in evs if e["e"] == "call" and e["f"] == "fc")
     b2 = [i for i, e in enumerate(evs) if e["e"] == "begin"][1]
-    if evs[b2 + 1]["e"] == "call":
-        raise MachineryError("self-test: the repeated call executed a function")
+    repeat_clean = evs[b2 + 1]["e"] != "call"        # on a correct tree the repeated call executes nothing
     evs.insert(b2 + 1, copy.deepcopy(first_c))
     # 3. the same corrupted trace with the residency observation erased: accepted (the rule rests on the logged field)
     bad3 = copy.deepcopy(bad2)
@@ -364,9 +392,13 @@ def selftests(ctx: Ctx) -> None:
     batch = good + [bad1, bad2, bad3]
     rej = validate(ctx, batch, "selftest", report=False)
     got = {i: (v["reached"], v["sig"]["clause"]) for i, v in rej.items()}
-    if any(i < 4 for i in got):
-        validate(ctx, good, "selftest_report")      # the unchanged scenario itself fails on this tree: report it
-        raise MachineryError(f"self-test scenario rejected on this tree: {got}")
+    if any(i < 4 for i in got) or not repeat_clean:
+        # the unaltered scenario is itself rejected on this tree: that is a violation (reported through the normal
+        # path), not a failure of the machinery; the corruption tests need an accepted trace to corrupt
+        validate(ctx, good, "selftest_scenario")
+        ctx.selftests.append({"name": "binding self-test", "ok": None,
+                              "detail": f"not applicable on this tree: the unaltered scenario is rejected {got}"})
+        return
     ctx.selftest("trace-corruption(one argument of one returned term altered -> exactly that event rejected as "
                  "stale-return)", got.get(4) == (k + 1, "stale-return"), f"got={got.get(4)} expected={(k + 1, 'stale-return')}")
     ctx.selftest("trace-corruption(execution of fc inserted into the exact repeat -> rejected there as re-execution "
@@ -427,16 +459,7 @@ def run(ctx: Ctx) -> None:
 
     t0 = time.time()
     # 2a. replay a deterministic selection of the exported histories on real twins
-    asis.sort(key=lambda h: digest(h))
-    by_verdict: dict[str, list[dict]] = {}
-    for h in asis:
-        by_verdict.setdefault(h["verdict"], []).append(h)
-    chosen: list[dict] = []
-    quota = max(20, budget // (2 * max(1, len(by_verdict) - 1)))
-    for v in sorted(by_verdict):
-        if v != "ok":
-            chosen += by_verdict[v][:quota]
-    chosen += by_verdict.get("ok", [])[: max(0, budget - len(chosen))]
+    chosen = select_histories(asis, budget)
     ctx.extra["model_histories_exported"] = len(asis)
     ctx.extra["model_histories_replayed"] = len(chosen)
     traces: list[dict] = []
@@ -473,7 +496,7 @@ def run(ctx: Ctx) -> None:
                               "events": sum(len(t["ev"]) for t in traces),
                               "mutations": sum(1 for t in traces for o in t["script"] if o["op"] == "mutate"),
                               "exact_repeats": sum(1 for t in traces for a, b in zip(t["script"], t["script"][1:])
-                                                   if a["op"] == "call" and a == b),
+                                                   if same_call(a, b)),
                               "calls_outside_property": sum(1 for t in traces for e in t["ev"] if e["e"] == "outside"),
                               "by_cache_type": {c: sum(1 for t in traces if t["cache_type"] == c) for c in CACHE_TYPES}}
 
@@ -517,7 +540,7 @@ def replay(rep: dict) -> int:
             bad += 1
             print("    PROPERTY VIOLATED: with caching   ", json.dumps(c["val"] if c["e"] == "return" else c["pairs"] or c["cls"])[:600])
             print("                       without caching", json.dumps(u["val"] if u["e"] == "return" else u["pairs"])[:600])
-        if prev is not None and prev == op:
+        if same_call(prev, op):
             b = [e for e in tr["ev"] if e["e"] == "begin"][sum(1 for o in w["script"][:k + 1] if o["op"] == "call") - 1]
             res = {tuple(key["o"]) for key in b["obs"]["keys"]}
             print("    exact repeat; entries observed before the call for outputs:", sorted(res))
